@@ -24,7 +24,7 @@ theorem recv_sim_logon {s : Side} {env : Env} {c : Conn} {f : Msg} {n : Int} {ev
       have ee : arecv (absConn c) ⟨n, .logon⟩ = (absConn c).dropLogout := by
         simp [arecv, absConn_e, absSt_sent hst, hn, AKind.pd]
       rw [ee]; exact hh
-    · have hh := recv_tooLow (env := env) hc hi hl3 (Or.inr (Or.inr (Or.inr ⟨hst, hpd⟩))) h4 hn
+    · have hh := recv_tooLow (env := env) hc hi hl3 (Or.inr (Or.inr (Or.inr ⟨hst, ne_Y_of_none hpd⟩))) h4 hn
       have ee : arecv (absConn c) ⟨n, .logon⟩ = (absConn c).dropLogout := by
         simp [arecv, absConn_e, absSt_awaiting hst, hn, AKind.pd]
       rw [ee]; exact hh
@@ -95,7 +95,7 @@ theorem recv_sim_resend {s : Side} {env : Env} {c : Conn} {f : Msg} {n b : Int}
       have ee : arecv (absConn c) ⟨n, .resend b⟩ = (absConn c).dropLogout := by
         simp [arecv, absConn_e, absSt_sent hst, hn, AKind.pd]
       rw [ee]; exact hh
-    · have hh := recv_tooLow (env := env) hc hi hl3 (Or.inr (Or.inr (Or.inr ⟨hst, hpd⟩))) h4 hn
+    · have hh := recv_tooLow (env := env) hc hi hl3 (Or.inr (Or.inr (Or.inr ⟨hst, ne_Y_of_none hpd⟩))) h4 hn
       have ee : arecv (absConn c) ⟨n, .resend b⟩ = (absConn c).dropLogout := by
         simp [arecv, absConn_e, absSt_awaiting hst, hn, AKind.pd]
       rw [ee]; exact hh
@@ -167,6 +167,6 @@ theorem recv_sim {s : Side} {env : Env} {c : Conn} {f : Msg} (hc : ConnGood s c)
   · rw [if_pos h5] at hk
     exact recv_sim_logout hc hs hi hl3 h5 hk
   rw [if_neg h5] at hk
-  exact recv_sim_app hc hs hi hl3 hA h2 h4 h5 hk.1 hk.2.1 hk.2.2
+  exact recv_sim_app hc hs hi hl3 hA h2 h4 h5 hk.1 hk.2
 
 end AsyncFix.Link
